@@ -1400,11 +1400,19 @@ func (r *RigWD) judge(dl *wdDelivery, muts []*wdCall, wantKind string, mustApply
 		if newerPresent {
 			s.Probe("stale_operation_newer_incarnation_present")
 		}
+		mdb, mcoll := refMap(r.sc.Mapping, e.DB, e.Coll)
+		mapped := e.Coll != "" && (mdb != dbOf(e.DB) || mcoll != e.Coll)
 		if applied > 0 && newerPresent {
 			s.Violate("C08", "wrong_incarnation", "%s was issued for an incarnation that no longer exists, but it was executed against the newer incarnation of the same name", what)
+			if mapped {
+				s.Violate("C09", "stale_op_under_mapping", "%s (mapped to %s.%s) was issued for an incarnation that no longer exists but was executed: the drop bookkeeping, which is keyed by SOURCE names, did not recognise it", what, mdb, mcoll)
+			}
 		}
 		if dl.err != nil && known {
 			s.Violate("C08", "stale_op_failed", "%s belongs to an incarnation whose drop (at or after the operation's time) this writer had already handled; it must be skipped successfully but failed: %v", what, dl.err)
+			if mapped {
+				s.Violate("C09", "stale_op_under_mapping", "%s (mapped to %s.%s) belongs to an incarnation whose drop this writer had already handled; it must be skipped but failed (%v): the drop bookkeeping, which is keyed by SOURCE names, did not recognise it", what, mdb, mcoll, dl.err)
+			}
 		}
 		if dl.err != nil && !known {
 			s.Probe("gone_but_drop_not_yet_known")
